@@ -154,10 +154,10 @@ def run_receive_untrusted(repo, autotrust):
         attempts.append(1)
         if len(attempts) == 1:
             raise _Raise(LIBEXC, "library raises UntrustedIdentityException")
-        itp.emit("UP", ("ext", "decrypted", []), {})
-        return C_NONE
-    for h in ("handlePreKeyWhisperMessage", "handleWhisperMessage", "handleSenderKeyMessage"):
-        hooks["method:" + h] = decrypt
+        return ("ext", "plaintext", [])
+    for h in ("decrypt_pkmsg", "decrypt_msg", "group_decrypt"):
+        hooks["ext:manager." + h] = decrypt
+    hooks["method:parseAndHandleMessageProto"] = lambda itp, recv, a, k, env, d, e: C_NONE
     gp0 = hooks["method:getProp"]
     pm = repo.module(PROPS)
     PROP = None
@@ -182,8 +182,9 @@ def run_receive_untrusted(repo, autotrust):
     it.layer_base = runner.base
     it.pure_depth = 0
     layer = runner.make_layer(it, cls)
-    mgr = Obj(None)
-    layer[1].fields["_manager"] = ("obj", mgr)
+    layer[1].fields["_manager"] = ("ext", "manager", [])
+    hooks_trust = trust
+    it.hooks["ext:manager.trust_identity"] = trust
     node = symbolic_node("message")
     encn = Node(("c", "enc"), None)
     encn.attrs.update({"type": ("c", "pkmsg"), "v": ("c", "2")})
